@@ -14,28 +14,29 @@ def tstr(h, m):
     return "%02d:%02d" % (h, m)
 
 
-async def _commit_path(payload, sched_index, edits):
-    """SchedulesResponse -> EcoMAX -> Schedule edits -> commit -> queued SetScheduleRequest."""
+async def _commit_path(payload, sched_index, rounds):
+    """Each round: SchedulesResponse -> EcoMAX -> Schedule edits -> commit -> queued SetScheduleRequest."""
     from pyplumio.devices.ecomax import EcoMAX
     from pyplumio.frames.responses import SchedulesResponse
     from pyplumio.structures.network_info import NetworkInfo
     from pyplumio.structures.schedules import SCHEDULES
     q = asyncio.Queue()
     dev = EcoMAX(q, network=NetworkInfo())
-    dev.handle_frame(SchedulesResponse(message=bytearray(payload)))
-    for _ in range(4):
-        await asyncio.gather(*[t for t in dev.tasks], return_exceptions=True)
-        await asyncio.sleep(0)
-    name = SCHEDULES[sched_index]
-    sched = dev.data["schedules"][name]
-    days = list(sched)
-    for (d, st, s, e) in edits:
-        days[d].set_state(st, s, e)
-    await sched.commit()
     frames = []
-    while not q.empty():
-        fr = q.get_nowait()
-        frames.append([int(fr.frame_type), int(fr.recipient), list(bytes(fr.message))])
+    for edits in rounds:
+        dev.handle_frame(SchedulesResponse(message=bytearray(payload)))
+        for _ in range(4):
+            await asyncio.gather(*[t for t in dev.tasks], return_exceptions=True)
+            await asyncio.sleep(0)
+        name = SCHEDULES[sched_index]
+        sched = dev.data["schedules"][name]
+        days = list(sched)
+        for (d, st, s, e) in edits:
+            days[d].set_state(st, s, e)
+        await sched.commit()
+        while not q.empty():
+            fr = q.get_nowait()
+            frames.append([int(fr.frame_type), int(fr.recipient), list(bytes(fr.message))])
     return frames
 
 
@@ -76,16 +77,21 @@ class C18(Prop):
             k = rng.randrange(1, 4)
             idxs = rng.sample(range(nsched), k)
             scheds = []
+            # days are often identical (weekdays alike, same pattern in several schedules), as on real controllers
+            pool = [[int(rng.random() < rng.choice([0.1, 0.5, 0.9])) for _ in range(48)] for _ in range(rng.choice([1, 2, 7]))]
             for i in idxs:
                 scheds.append({"index": i, "switch": rng.choice([0, 1]), "param": [rng.randrange(256), 0, 255],
-                               "bits": [[int(rng.random() < rng.choice([0.1, 0.5, 0.9])) for _ in range(48)] for _ in range(7)]})
+                               "bits": [list(rng.choice(pool)) for _ in range(7)]})
             target = rng.randrange(k)
-            edits = []
-            for _ in range(rng.choice([0, 0, 1, 3])):
-                s = rng.randrange(47)
-                e = rng.randrange(s + 1, 48)
-                edits.append([rng.randrange(7), rng.randrange(4), [s // 2, 30 * (s % 2)], [e // 2, 30 * (e % 2)]])
-            cases.append({"kind": "commit", "scheds": scheds, "target": target, "edits": edits})
+            rounds = []
+            for _ in range(rng.choice([1, 2, 3])):
+                edits = []
+                for _ in range(rng.choice([0, 0, 1, 3])):
+                    s = rng.randrange(47)
+                    e = rng.randrange(s + 1, 48)
+                    edits.append([rng.randrange(7), rng.randrange(4), [s // 2, 30 * (s % 2)], [e // 2, 30 * (e % 2)]])
+                rounds.append(edits)
+            cases.append({"kind": "commit", "scheds": scheds, "target": target, "rounds": rounds})
         return cases
 
     # ---- implementation -----------------------------------------------------------------
@@ -104,9 +110,9 @@ class C18(Prop):
             except Exception as ex:  # noqa: BLE001
                 return {"error": type(ex).__name__}
         payload = self._payload(c)
-        edits = [(d, STATES[st], tstr(*s), tstr(*e)) for d, st, s, e in c["edits"]]
+        rounds = [[(d, STATES[st], tstr(*s), tstr(*e)) for d, st, s, e in edits] for edits in c["rounds"]]
         try:
-            return vloop.run(_commit_path, payload, c["scheds"][c["target"]]["index"], edits)
+            return vloop.run(_commit_path, payload, c["scheds"][c["target"]]["index"], rounds)
         except Exception as ex:  # noqa: BLE001
             return {"error": type(ex).__name__}
 
@@ -129,12 +135,15 @@ class C18(Prop):
                 out.append([[int(b) for b in r[0]]] if r else {"error": "ValueError", "day_after": c["day"]})
             else:
                 t = c["scheds"][c["target"]]
-                days = [list(d) for d in t["bits"]]
-                for d, st, s, e in c["edits"]:
-                    r = model.call("set_state", [days[d], st, s[0], s[1], e[0], e[1]])
-                    days[d] = [int(b) for b in r[0]]
-                bs = model.call("req_bytes", [[7, t["index"], t["switch"], t["param"][0], days], 0x45, 0x56, 48, 5])
-                out.append([[55, 0x45, bs[0][8:-2]]])
+                frames = []
+                for edits in c["rounds"]:
+                    days = [list(d) for d in t["bits"]]       # every round starts from the freshly received week
+                    for d, st, s, e in edits:
+                        r = model.call("set_state", [days[d], st, s[0], s[1], e[0], e[1]])
+                        days[d] = [int(b) for b in r[0]]
+                    bs = model.call("req_bytes", [[7, t["index"], t["switch"], t["param"][0], days], 0x45, 0x56, 48, 5])
+                    frames.append([55, 0x45, bs[0][8:-2]])
+                out.append(frames)
         self._expected = {id(c): m for c, m in zip(cases, out)}
         return out
 
